@@ -8,16 +8,19 @@ import glob, os, re, subprocess, sys, time
 ROOT = os.path.dirname(os.path.dirname(os.path.abspath(__file__)))
 args = [a for a in sys.argv[1:] if not a.startswith("--")]
 props_override = None
+REPO = "/repo"
 for a in sys.argv[1:]:
     if a.startswith("--props="):
         props_override = a.split("=", 1)[1].split(",")
+    if a.startswith("--repo="):
+        REPO = a.split("=", 1)[1]
 patches = []
 for a in args or [os.path.join(ROOT, "tools", "mutants")]:
     if os.path.isdir(a):
         patches += sorted(glob.glob(os.path.join(a, "*.patch"))) + sorted(glob.glob(os.path.join(a, "*", "patch.diff")))
     else:
         patches.append(os.path.abspath(a))
-assert subprocess.run(["git", "-C", "/repo", "diff", "--quiet"]).returncode == 0, "/repo has uncommitted changes"
+assert subprocess.run(["git", "-C", REPO, "diff", "--quiet"]).returncode == 0, "/repo has uncommitted changes"
 results = []
 for p in patches:
     name = os.path.basename(p) if p.endswith(".patch") else os.path.basename(os.path.dirname(p))
@@ -26,7 +29,7 @@ for p in patches:
     if not props and os.path.exists(mj):
         import json
         props = [json.load(open(mj))["property"]]
-    r = subprocess.run(["git", "-C", "/repo", "apply", p], capture_output=True, text=True)
+    r = subprocess.run(["git", "-C", REPO, "apply", p], capture_output=True, text=True)
     if r.returncode != 0:
         print(f"{name}: PATCH DOES NOT APPLY: {r.stderr.strip()[:200]}")
         results.append((name, "noapply"))
@@ -47,5 +50,5 @@ for p in patches:
             print(f"{name}: {pr}: {status} ({len(viol)} signatures, {time.time()-t0:.0f}s) {detail[0][:160] if detail else r.stdout.strip()[-160:]}")
             results.append((name, status))
     finally:
-        subprocess.run(["git", "-C", "/repo", "checkout", "--", "."], check=True)
+        subprocess.run(["git", "-C", REPO, "checkout", "--", "."], check=True)
 print("summary:", sum(1 for r in results if r[1] == "CAUGHT"), "caught of", len(results))
